@@ -168,12 +168,10 @@ impl Stats {
     }
 
     pub fn to_json(&self) -> Value {
-        let hashes: Vec<String> = self.nontrivial.iter().map(|hash| format!("{hash:x}")).collect();
         json!({
             "cases": self.cases,
             "evaluations": self.evaluations,
             "classes": self.classes,
-            "nontrivial": hashes,
             "samples": self.samples,
             "known_hits": self.known_hits,
             "notes": self.notes,
@@ -187,15 +185,6 @@ impl Stats {
         if let Some(map) = value["classes"].as_object() {
             for (name, count) in map {
                 stats.classes.insert(name.clone(), count.as_u64().unwrap_or(0));
-            }
-        }
-        if let Some(list) = value["nontrivial"].as_array() {
-            for item in list {
-                if let Some(text) = item.as_str() {
-                    if let Ok(hash) = u64::from_str_radix(text, 16) {
-                        stats.nontrivial.insert(hash);
-                    }
-                }
             }
         }
         if let Some(list) = value["samples"].as_array() {
